@@ -69,6 +69,10 @@ def check(ctx, base, steps, offset, suffix):
         return
     bp = JSONPointer(base_text)
     routes = {
+        "rel.to(from_parts base)": lambda: c.value.to(JSONPointer.from_parts(list(base))),
+        "rel.to(from_parts int base)": lambda: c.value.to(JSONPointer.from_parts([int(t) if rp.CANON_INDEX.match(t) and len(t) < 15 else t for t in base])),
+        "rel.to(base produced by to)": lambda: c.value.to(bp.to("0")),
+        "rel.to(base produced by join)": lambda: c.value.to(JSONPointer("").join(*[rp.encode_token(t) for t in base]) if base and all(t == t.lstrip() for t in base) else bp),
         "rel.to(pointer)": lambda: c.value.to(bp),
         "rel.to(text)": lambda: c.value.to(base_text),
         "pointer.to(text)": lambda: bp.to(text),
